@@ -80,7 +80,9 @@ pub fn init() {
             let func = if is_asca {
                 FN_CACHE.with(|c| c.borrow_mut().entry((file.clone(), line)).or_insert_with(enclosing_fn).clone())
             } else { enclosing_fn() };
-            let sig = format!("panic|{}|{}|{}", if is_asca { short_file } else { "<dep>".into() }, func, mask_numbers(msg.lines().next().unwrap_or("")));
+            // the last field is the rule type of the sub-rule that was running (or outside-rule): the enclosing function alone is too coarse,
+            // `SubRule::apply` with everything inlined into it covers all four rule types
+            let sig = format!("panic|{}|{}|{}|{}", if is_asca { short_file } else { "<dep>".into() }, func, mask_numbers(msg.lines().next().unwrap_or("")), rule_type_name(verif::phase()));
             LAST_PANIC.with(|p| *p.borrow_mut() = Some(sig));
         }));
         // force the lazily initialised tables outside any guarded call
@@ -100,7 +102,7 @@ pub fn guarded<T>(budget: u64, f: impl FnOnce() -> Result<T, Error>) -> Guarded<
             if let Some(b) = payload.downcast_ref::<BudgetExhausted>() {
                 Err(Abn::Budget { dominant: b.dominant_site, last: b.last_site, rule_type: b.rule_type })
             } else {
-                let sig = LAST_PANIC.with(|p| p.borrow_mut().take()).unwrap_or_else(|| "panic|?|?|?".into());
+                let sig = LAST_PANIC.with(|p| p.borrow_mut().take()).unwrap_or_else(|| "panic|?|?|?|?".into());
                 Err(Abn::Panic(sig))
             }
         }
